@@ -70,6 +70,22 @@ ASetPixels(img, cfg, o, win, cols) ==
      PMerge([c \in {Place(cfg, o, win[1] + (k % ww), win[2] + (k \div ww)) : k \in 0 .. n - 1} |->
         LET p == PlaceInv(cfg, o, c) IN Colour(cfg, cols[(p[2] - win[2]) * ww + (p[1] - win[1]) + 1])], img)
 
+\* the required picture after one drawing call given as the record the harness logs (name + arguments)
+AExpected(img, cfg, o, n, a) ==
+  CASE n = "set_pixel" -> APaint(img, cfg, o, <<<<a.x, a.y, a.c>>>>)
+    [] n = "set_pixels" -> ASetPixels(img, cfg, o, a.win, a.colors)
+    [] n = "draw_iter" -> APaint(img, cfg, o, a.px)
+    [] n = "fill_solid" -> AFillSolid(img, cfg, o, a.rect, a.c)
+    [] n = "fill_contiguous" -> AFillContig(img, cfg, o, a.rect, a.colors.start, a.colors.len)
+    [] n = "clear" -> AFillSolid(img, cfg, o, <<0, 0, LogicalSize(cfg, o)[1], LogicalSize(cfg, o)[2]>>, a.c)
+    [] OTHER -> img
+AInBounds(cfg, o, n, a) ==
+  CASE n = "set_pixel" -> InBox(cfg, o, a.x, a.y)
+    [] n = "set_pixels" -> SetPixelsPre(cfg, o, a.win, Len(a.colors))
+    [] n = "draw_iter" -> AllInBox(cfg, o, a.px)
+    [] n \in {"fill_solid", "fill_contiguous"} -> RectInBox(cfg, o, a.rect)
+    [] OTHER -> TRUE
+
 \* the whole panel window in one colour (C12 recovery check)
 WindowAll(cfg, col) ==
   [c \in (cfg.ox .. cfg.ox + cfg.w - 1) \X (cfg.oy .. cfg.oy + cfg.h - 1) |-> Colour(cfg, col)]
